@@ -317,3 +317,6 @@ var watched []interface{}
 // objects and maps) FrameBegin / FrameUnchanged compare natively. The engine ignores it: it
 // compares every heap cell anyway.
 func FrameWatch(objs ...interface{}) { watched = append(watched, objs...) }
+
+// ---------------------------------------------------------------------------
+// text/template reference and abstract readers (C19)
